@@ -115,7 +115,7 @@ func (s *snapper) walk(v reflect.Value, path string) {
 	case reflect.Struct:
 		t := v.Type()
 		for i := 0; i < v.NumField(); i++ {
-			s.walk(v.Field(i), s.sub(path, "."+t.Field(i).Name))
+			s.walk(v.Field(i), s.sub(path, "."+t.Name()+":"+t.Field(i).Name))
 		}
 	case reflect.Slice:
 		if v.IsNil() {
@@ -209,7 +209,8 @@ func diffLines(a, b []string) string {
 	return strings.Join(out, " ;; ")
 }
 
-// fieldOf extracts "Type.field" from the path of a differing line, for the signature.
+// changedField names the first differing field as "StructType.field" (the signature of a
+// write on a read path is the field written, whatever operation triggered it).
 func changedField(a, b []string) string {
 	n := len(a)
 	if len(b) < n {
@@ -221,21 +222,19 @@ func changedField(a, b []string) string {
 			if j := strings.Index(p, " = "); j >= 0 {
 				p = p[:j]
 			}
-			// keep the last two named segments, drop indexes / map keys
-			segs := strings.FieldsFunc(p, func(r rune) bool { return r == '.' || r == '*' })
-			var names []string
-			for _, sg := range segs {
+			last := ""
+			for _, sg := range strings.FieldsFunc(p, func(r rune) bool { return r == '.' || r == '*' }) {
 				if k := strings.IndexAny(sg, "[{"); k >= 0 {
 					sg = sg[:k]
 				}
-				if sg != "" && !strings.HasPrefix(sg, "root") {
-					names = append(names, sg)
+				if strings.Contains(sg, ":") {
+					last = sg
 				}
 			}
-			if len(names) > 2 {
-				names = names[len(names)-2:]
+			if last == "" {
+				return "root"
 			}
-			return strings.Join(names, ".")
+			return strings.Replace(last, ":", ".", 1)
 		}
 	}
 	return "shape"
